@@ -20,6 +20,12 @@ Go code mirrored (all in /repo):
   (the root message is fetched eagerly, `CreateChildren(children, false)`).
 * `pkg/filesystem/virtual/blob_access_cas_file_factory.go` (+ the stateless handle
   allocating decorator, which only adds an inode number) ↦ `leafOut` on `Node.file`.
+* `pkg/filesystem/virtual/access_monitoring_initial_contents_fetcher.go` ↦ the
+  `mon` annotation: `fetch … (some p)` is `FetchContents` of a fetcher wrapped for the
+  `UnreadDirectoryMonitor` of input root path `p`; its child directories come back
+  wrapped for `p ++ [name]` and its files carry the read monitor of `p ++ [name]`
+  (`readMonitoringLinkableLeaf`).  Nothing in the model looks at the annotation.
+* `VirtualRename` / `VirtualLink` of `in_memory_prepopulated_directory.go` ↦ `rename`, `link`.
 * `pkg/cas/caching_directory_fetcher.go` ↦ namespace `Cache` at the end of the file.
 
 Names, hashes and symlink targets are byte strings (`List Nat`), so that the
@@ -96,10 +102,10 @@ deriving DecidableEq, Repr, Inhabited
 `initialContentsFetcher` is still set (a `casInitialContentsFetcher` for digest `d`);
 `dir ch`: directory whose contents have been created. -/
 inductive Node
-  | file (d : Dig) (exec : Bool)
+  | file (d : Dig) (exec : Bool) (mon : Option Path)
   | sym (target : Bytes)
   | loc
-  | lazy (d : Dig)
+  | lazy (d : Dig) (mon : Option Path)
   | dir (children : List (Name × Node))
 
 instance : Inhabited Node := ⟨.loc⟩
@@ -115,10 +121,10 @@ inductive Kind
 deriving DecidableEq, Repr, Inhabited
 
 def kindOf : Node → Kind
-  | .file d x => .file d x
+  | .file d x _ => .file d x
   | .sym t => .sym t
   | .loc => .loc
-  | .lazy _ => .dir
+  | .lazy _ _ => .dir
   | .dir _ => .dir
 
 /-- Content Addressable Storage: Directory blobs (`none` = a blob that is not a
@@ -156,7 +162,7 @@ def addDirs (hl : Nat) : List DirNode → Children → Except Err Children
     else if hasName ch e.name then .error .invalidArgument
     else match parseDigest hl e.digest with
       | none => .error .invalidArgument
-      | some d => addDirs hl rest (ch ++ [(e.name, .lazy d)])
+      | some d => addDirs hl rest (ch ++ [(e.name, .lazy d none)])
 
 /-- Second loop: files. The `Nat` is `len(leavesToUnlink)`. -/
 def addFiles (hl : Nat) : List FileNode → Children → Nat → Except Err Children × Nat
@@ -166,7 +172,7 @@ def addFiles (hl : Nat) : List FileNode → Children → Nat → Except Err Chil
     else if hasName ch e.name then (.error .invalidArgument, k)
     else match parseDigest hl e.digest with
       | none => (.error .invalidArgument, k)
-      | some d => addFiles hl rest (ch ++ [(e.name, .file d e.exec)]) (k + 1)
+      | some d => addFiles hl rest (ch ++ [(e.name, .file d e.exec none)]) (k + 1)
 
 /-- Third loop: symbolic links. -/
 def addSyms : List SymNode → Children → Nat → Except Err Children × Nat
@@ -184,9 +190,9 @@ structure FetchOut where
   /-- leaves unlinked by the deferred loop over `leavesToUnlink` -/
   unlinked : Nat
 
-/-- `FetchContents` of the fetcher of digest `d`; `F` = digests whose
-`GetDirectory` fails during this call (storage fault). -/
-def fetch (c : CAS) (F : List Dig) (d : Dig) : FetchOut :=
+/-- `FetchContents` of the bare `casInitialContentsFetcher` of digest `d`; `F` =
+digests whose `GetDirectory` fails during this call (storage fault). -/
+def fetchBase (c : CAS) (F : List Dig) (d : Dig) : FetchOut :=
   if F.contains d then ⟨.error .unavailable, 0, 0⟩
   else match assoc c.dirs d with
   | none => ⟨.error .notFound, 0, 0⟩
@@ -202,6 +208,22 @@ def fetch (c : CAS) (F : List Dig) (d : Dig) : FetchOut :=
         | (.error e, k') => ⟨.error e, k', k'⟩
         | (.ok ch3, k') => ⟨.ok ch3, k', 0⟩
 
+/-- What the access monitoring wrapper of path `p` adds to a child: directories are
+wrapped for `ResolvedDirectory(name)`, files get the read monitor of `name`. -/
+def annotate (mon : Option Path) : Name × Node → Name × Node
+  | (n, .lazy d _) => (n, .lazy d (mon.map (· ++ [n])))
+  | (n, .file d x _) => (n, .file d x (mon.map (· ++ [n])))
+  | e => e
+
+/-- `FetchContents` of the fetcher of digest `d`, wrapped by
+`NewAccessMonitoringInitialContentsFetcher` for the directory `p` when `mon = some p`.
+Errors and the leaf accounting are those of the wrapped fetcher. -/
+def fetch (c : CAS) (F : List Dig) (d : Dig) (mon : Option Path) : FetchOut :=
+  let r := fetchBase c F d
+  { r with result := match r.result with
+      | .ok ch => .ok (ch.map (annotate mon))
+      | .error e => .error e }
+
 /-! ## lazy directories -/
 
 inductive Contents
@@ -212,7 +234,7 @@ inductive Contents
 /-- One call of `getContents` (without the state change). -/
 def contents (c : CAS) (F : List Dig) : Node → Contents
   | .dir ch => .ok ch
-  | .lazy d => match (fetch c F d).result with
+  | .lazy d m => match (fetch c F d m).result with
     | .ok ch => .ok ch
     | .error e => .err e
   | _ => .notDir
@@ -270,7 +292,7 @@ def isWriteAttempt : LeafOp → Bool
 /-- Result of a leaf operation on a node (the node is never changed by it in this
 model: local files are mutable but their contents are not tracked). -/
 def leafOut (c : CAS) (F : List Dig) (op : LeafOp) : Node → Out
-  | .file d _ =>
+  | .file d _ _ =>
     match op with
     | .openWrite => .status .eacces
     | .openTrunc => .status .eacces
@@ -343,13 +365,18 @@ structure State where
   root : Node
 
 inductive Op
-  | merge (d : Dig)
+  /-- `monitored`: an `UnreadDirectoryMonitor` was passed to `MergeDirectoryContents` -/
+  | merge (d : Dig) (monitored : Bool)
   | lookup (p : Path) (x : Name)
   | readdir (p : Path)
   | leaf (op : LeafOp) (p : Path) (x : Name)
   | remove (p : Path) (x : Name)
   | create (p : Path) (x : Name)
   | mkdir (p : Path) (x : Name)
+  /-- `VirtualRename(x1 in directory p1, directory p2, x2)` -/
+  | rename (p1 : Path) (x1 : Name) (p2 : Path) (x2 : Name)
+  /-- `VirtualLink(xd in directory pd, the leaf xs of directory ps)` -/
+  | link (ps : Path) (xs : Name) (pd : Path) (xd : Name)
 
 /-- `CreateChildren(children, overwrite = false)` on an initialised directory. -/
 def actMerge (new : Children) (cur : Children) : Children × Out :=
@@ -357,8 +384,8 @@ def actMerge (new : Children) (cur : Children) : Children × Out :=
   else (cur ++ new, .ok)
 
 /-- `virtualBuildDirectory.MergeDirectoryContents` on the root of the hierarchy. -/
-def merge (s : State) (F : List Dig) (d : Dig) : State × Out :=
-  match (fetch s.cas F d).result with
+def merge (s : State) (F : List Dig) (d : Dig) (monitored : Bool) : State × Out :=
+  match (fetch s.cas F d (if monitored then some [] else none)).result with
   | .error e => (s, .mergeErr e)
   | .ok new =>
     match contents s.cas F s.root with
@@ -366,30 +393,137 @@ def merge (s : State) (F : List Dig) (d : Dig) : State × Out :=
     | .err _ => (s, .status .eio)
     | .notDir => (s, .status .enotdir)
 
-def actOf (c : CAS) (F : List Dig) : Op → Children → Children × Out
-  | .merge _ => fun ch => (ch, .ok)
-  | .lookup _ x => actLookup x
-  | .readdir _ => actReaddir
-  | .leaf op _ x => actLeaf c F op x
-  | .remove _ x => actRemove c F x
-  | .create _ x => actCreate x
-  | .mkdir _ x => actMkdir x
+/-! ### rename and link -/
 
-def pathOf : Op → Path
-  | .merge _ => []
-  | .lookup p _ => p
-  | .readdir p => p
-  | .leaf _ p _ => p
-  | .remove p _ => p
-  | .create p _ => p
-  | .mkdir p _ => p
+/-- The node a path denotes below `n`. Where it is used by `rename` and `link` the
+directories on the path have just been initialised, so no fetch is involved. -/
+def nodeAt (c : CAS) : Node → Path → Option Node
+  | n, [] => some n
+  | n, x :: rest =>
+    match contents c [] n with
+    | .ok ch =>
+      match lookup ch x with
+      | none => none
+      | some v => nodeAt c v rest
+    | _ => none
+
+/-- Just initialise the directories on the way (`VirtualLookup` walk + `getContents`). -/
+def actNop (ch : Children) : Children × Out := (ch, .ok)
+
+/-- `VirtualLookup` of a directory: it must exist and be a directory (it is not
+initialised by being looked up). -/
+def actIsDir (x : Name) (ch : Children) : Children × Out :=
+  (ch, match lookup ch x with
+    | none => .status .enoent
+    | some n => if kindOf n = .dir then .ok else .status .enotdir)
+
+/-- Walk to the directory `p` with `VirtualLookup`s from the root: every directory
+above `p` is initialised, `p` itself is only looked up. -/
+def walkTo (c : CAS) (F : List Dig) (p : Path) (root : Node) : Node × Out :=
+  match p.getLast? with
+  | none => (root, .ok)
+  | some x => withDir c F (actIsDir x) p.dropLast root
+
+/-- Renaming onto an existing directory: it is initialised and must be empty. -/
+def actForceChild (c : CAS) (F : List Dig) (x : Name) (ch : Children) : Children × Out :=
+  match lookup ch x with
+  | none => (ch, .status .enoent)
+  | some n =>
+    match contents c F n with
+    | .notDir => (ch, .status .enotdir)
+    | .err _ => (ch, .status .eio)
+    | .ok [] => (replaceFirst ch x (.dir []), .ok)
+    | .ok (g :: gs) => (replaceFirst ch x (.dir (g :: gs)), .status .enotempty)
+
+/-- `detach` -/
+def actErase (x : Name) (ch : Children) : Children × Out := (eraseFirst ch x, .ok)
+
+/-- `detach` of an entry of that name, if any, and `attach` of `v` -/
+def actPut (x : Name) (v : Node) (ch : Children) : Children × Out :=
+  (match lookup ch x with
+    | some _ => replaceFirst ch x v
+    | none => ch ++ [(x, v)], .ok)
+
+/-- `virtualMayAttach` + `attach` -/
+def actPutNew (x : Name) (v : Node) (ch : Children) : Children × Out :=
+  match lookup ch x with
+  | some _ => (ch, .status .eexist)
+  | none => (ch ++ [(x, v)], .ok)
+
+/-- Detach `x1` from the directory `p1`, attach the node under `x2` in the directory
+`p2` (both initialised; no storage involved). -/
+def moveEntry (c : CAS) (t : Node) (p1 : Path) (x1 : Name) (p2 : Path) (x2 : Name) (od : Node) : Node :=
+  (withDir c [] (actPut x2 od) p2 (withDir c [] (actErase x1) p1 t).1).1
+
+/-- `VirtualRename`. The caller walks to both directories (`walkTo`), then both
+are initialised (old first), then the cases of the Go code in their order. The entry that moves is moved as it is: a directory
+that has not been initialised yet stays lazy (with its fetcher, wrapped or not).
+Detaching and attaching work on initialised contents and involve no storage.
+Not modelled (the generator avoids it): old and new entry being two hard links of
+one leaf object (no-op in the Go code), and moving a directory below itself (the
+Go code has a TODO and creates an unreachable cycle). -/
+def rename (c : CAS) (F : List Dig) (root : Node) (p1 : Path) (x1 : Name) (p2 : Path) (x2 : Name) :
+    Node × Out :=
+  let w1 := walkTo c F p1 root
+  if w1.2 ≠ .ok then w1 else
+  let w2 := walkTo c F p2 w1.1
+  if w2.2 ≠ .ok then w2 else
+  let r1 := withDir c F actNop p1 w2.1
+  if r1.2 ≠ .ok then r1 else
+  let r2 := withDir c F actNop p2 r1.1
+  if r2.2 ≠ .ok then r2 else
+  let t := r2.1
+  let move (t : Node) (od : Node) : Node × Out := (moveEntry c t p1 x1 p2 x2 od, .ok)
+  match nodeAt c t (p2 ++ [x2]) with
+  | some nw =>
+    match nodeAt c t (p1 ++ [x1]) with
+    | none => (t, .status .enoent)
+    | some od =>
+      if kindOf nw = .dir then
+        if kindOf od ≠ .dir then (t, .status .eisdir)
+        else if p1 = p2 ∧ x1 = x2 then (t, .ok)
+        else
+          let r3 := withDir c F (actForceChild c F x2) p2 t
+          if r3.2 ≠ .ok then r3 else move r3.1 od
+      else
+        if kindOf od = .dir then (t, .status .enotdir)
+        else if p1 = p2 ∧ x1 = x2 then (t, .ok)
+        else move t od
+  | none =>
+    match nodeAt c t (p1 ++ [x1]) with
+    | none => (t, .status .enoent)
+    | some od => move t od
+
+/-- `VirtualLink`: the leaf found at `ps/xs` is attached a second time at `pd/xd`.
+(Immutable leaves: a second reference to the object is a copy of the node.) -/
+def link (c : CAS) (F : List Dig) (root : Node) (ps : Path) (xs : Name) (pd : Path) (xd : Name) :
+    Node × Out :=
+  let r1 := withDir c F actNop ps root
+  if r1.2 ≠ .ok then r1 else
+  match nodeAt c r1.1 (ps ++ [xs]) with
+  | none => (r1.1, .status .enoent)
+  | some v =>
+    if kindOf v = .dir then (r1.1, .status .eisdir)
+    else withDir c F (actPutNew xd v) pd r1.1
 
 /-- One operation; `F` = the digests whose storage reads fail while it runs. -/
 def step (s : State) (F : List Dig) (op : Op) : State × Out :=
+  let onDir (act : Children → Children × Out) (p : Path) : State × Out :=
+    let r := withDir s.cas F act p s.root
+    ({ s with root := r.1 }, r.2)
   match op with
-  | .merge d => merge s F d
-  | op =>
-    let r := withDir s.cas F (actOf s.cas F op) (pathOf op) s.root
+  | .merge d m => merge s F d m
+  | .lookup p x => onDir (actLookup x) p
+  | .readdir p => onDir actReaddir p
+  | .leaf o p x => onDir (actLeaf s.cas F o x) p
+  | .remove p x => onDir (actRemove s.cas F x) p
+  | .create p x => onDir (actCreate x) p
+  | .mkdir p x => onDir (actMkdir x) p
+  | .rename p1 x1 p2 x2 =>
+    let r := rename s.cas F s.root p1 x1 p2 x2
+    ({ s with root := r.1 }, r.2)
+  | .link ps xs pd xd =>
+    let r := link s.cas F s.root ps xs pd xd
     ({ s with root := r.1 }, r.2)
 
 def init (c : CAS) : State := ⟨c, .dir []⟩
@@ -408,10 +542,10 @@ def run (s : State) : List (List Dig × Op) → State × List Out
 def expand (c : CAS) : Nat → Node → Node
   | 0, n => n
   | f + 1, .dir ch => .dir (ch.map fun e => (e.1, expand c f e.2))
-  | f + 1, .lazy d =>
-    match (fetch c [] d).result with
+  | f + 1, .lazy d m =>
+    match (fetch c [] d m).result with
     | .ok ch => .dir (ch.map fun e => (e.1, expand c f e.2))
-    | .error _ => .lazy d
+    | .error _ => .lazy d m
   | _ + 1, n => n
 
 /-- Node reached by following `p` through *materialised* directories only. -/
@@ -422,6 +556,50 @@ def rawAt : Node → Path → Option Node
     | none => none
     | some c => rawAt c rest
   | _, _ :: _ => none
+
+/-! ## `ApplyGetContainingDigests` on a directory that has not been initialised
+
+`inMemoryPrepopulatedDirectory.VirtualApply` forwards to the fetcher while it is
+still set; `casInitialContentsFetcher` answers with the transitive closure of the
+digests below it (`casContainingDigestsGatherer.traverse`) without creating
+anything. This is an internal interface (not reachable through FUSE/NFS) and
+shows whether a directory has been initialised, so it is a query beside `step`. -/
+
+/-- `traverse`: `st.1` = `directoriesGathered`, `st.2` = `digests`. Unlike
+`FetchContents` it looks at digests only, not at names. Fuel: nesting depth. -/
+def gather (c : CAS) (F : List Dig) : Nat → Dig → List Dig × List Dig → Except Err (List Dig × List Dig)
+  | 0, _, st => .ok st
+  | f + 1, d, (seen, acc) =>
+    if F.contains d then .error .unavailable
+    else match assoc c.dirs d with
+    | none => .error .notFound
+    | some none => .error .invalidArgument
+    | some (some m) =>
+      let stepDir : List Dig × List Dig → DirNode → Except Err (List Dig × List Dig) := fun st e =>
+        match parseDigest c.hashLen e.digest with
+        | none => Except.error Err.invalidArgument
+        | some d' => if st.1.contains d' then Except.ok st else gather c F f d' (d' :: st.1, st.2)
+      let stepFile : List Dig × List Dig → FileNode → Except Err (List Dig × List Dig) := fun st e =>
+        match parseDigest c.hashLen e.digest with
+        | none => Except.error Err.invalidArgument
+        | some d' => Except.ok (st.1, d' :: st.2)
+      match m.dirs.foldlM stepDir (seen, d :: acc) with
+      | .error e => .error e
+      | .ok st => m.files.foldlM stepFile st
+
+inductive Containing
+  | unhandled               -- `VirtualApply` returned false
+  | err (e : Err)
+  | digests (l : List Dig)  -- as a set
+
+/-- `VirtualApply(&ApplyGetContainingDigests{})` on a node, as it is. -/
+def containing (c : CAS) (F : List Dig) : Node → Containing
+  | .file d _ _ => .digests [d]
+  | .lazy d _ =>
+    match gather c F (c.dirs.length + 1) d ([], []) with
+    | .ok st => .digests st.2
+    | .error e => .err e
+  | _ => .unhandled
 
 /-! ## `cachingDirectoryFetcher` -/
 namespace Cache
